@@ -124,6 +124,23 @@ def aromatize_tie(ctx, spellings):
             ctx.disagree('corr:c03.aromatize', {'smiles': sp}, impl, {'arom': rep['arom'], 'kinds': rep['kinds']})
 
 
+def high_index_spellings(ctx, libs_):
+    """the same molecule written with its distinguishing part first and last in a chain of more than 256 heavy atoms: atom
+    indices beyond the interpreter's small-integer cache (an identity comparison of indices shows there).  Implementation
+    only (the relational oracle); the compiled model is not run on these sizes in the quick tier."""
+    n = 262
+    pairs = [('C' * n + 'C1CC1', 'C1CC1' + 'C' * n), ('C' * n + '/C=C\\C', 'C/C=C\\' + 'C' * (n + 1)),
+             ('C' * n + 'C(C)(C)C(C)(C)C', 'CC(C)(C)C(C)(C)' + 'C' * (n + 1)), ('C' * n + 'OCOC', 'COCO' + 'C' * (n + 1))]
+    for name, lib in libs_:
+        if name not in ('BensonGA', 'GRWSurface2018', 'XieGA2022'):
+            continue
+        for a, b in pairs:
+            ra, rb = S.impl_descriptors(lib, a), S.impl_descriptors(lib, b)
+            ctx.count('high_index_spellings')
+            ctx.case((name, 'high-index', a[-8:]), None)
+            compare(ctx, name, lib, a, ra, b, rb, 'feature beyond atom index 256')
+
+
 def run(ctx):
     rng = ctx.rng
     libs_ = S.load_schemes()
@@ -136,6 +153,15 @@ def run(ctx):
         ctx.count('corpus')
         replay(ctx, rec)
     batch = []
+    high_index_spellings(ctx, libs_)
+
+    def chain_witness(name, lib, k, t, ab, ba, a, b):
+        compare(ctx, name, lib, ab, S.impl_descriptors(lib, ab), ba, S.impl_descriptors(lib, ba), 'components in the other order')
+        for x in (a, b, ab):       # and every spelling of the parts and of the mixture
+            base = S.impl_descriptors(lib, x)
+            for sp in G.spellings(rng, x, 6):
+                compare(ctx, name, lib, x, base, sp, S.impl_descriptors(lib, sp), 'spelling')
+    S.chain_free_hypothesis(ctx, libs_, chain_witness)
     full = S.FullTie(ctx, max_cases=ctx.n(250, 3000))      # per library
     pipe = P.PipeTie(ctx, max_cases=ctx.n(40, 500))        # per library: the composed pipeline (decompose, then estimate)
     pipe.steps = collections.Counter()
